@@ -143,6 +143,8 @@ func main() {
 		ops: bufio.NewWriterSize(of, 1<<20), out: bufio.NewWriterSize(rf, 1<<20),
 		Dist: map[string]int{}, distinct: map[string]struct{}{},
 	}
+	// trust in the script interpreter is established first: every known script, Go transcription vs luamini
+	luaminiSelfCheck(c, *seed)
 	if *replay != "" {
 		data, err := os.ReadFile(*replay)
 		if err != nil {
@@ -163,6 +165,7 @@ func main() {
 	} else {
 		s.run(c)
 	}
+	luaminiHits(c)
 	c.ops.Flush()
 	c.out.Flush()
 	of.Close()
